@@ -1,3 +1,2 @@
-import AbacusVerif.Model.Common
--- stub: replaced when the C20 model exists
-def main : IO Unit := AbacusVerif.driverMain (fun _ => "bad-op")
+import AbacusVerif.Model.C20
+def main : IO Unit := AbacusVerif.driverMain AbacusVerif.Pipe.handle
